@@ -313,8 +313,82 @@ def parse_out(line):
         ev, st = rest.split(" state=", 1)
     except ValueError:
         return None
+    if " maxret=" in st:
+        st = st.split(" maxret=")[0]
     return a, ([] if ev == "-" else ev.split(";")), st
+
+
+def maxret_of(line):
+    return int(line.rsplit(" maxret=", 1)[1]) if " maxret=" in line else None
 
 
 def no_continue(events):
     return [e for e in events if not e.startswith("X(")]
+
+
+# ------------------------------------------------------------------------------------------
+# responses (client side)
+def gen_response(rng, cfg):
+    lim = dict(RSP_LIMITS[cfg.inst])
+    m = Msg()
+    ma, mi = rng.choice([(1, 1), (1, 1), (1, 0), (2, 0)])
+    status = rng.choice([200, 200, 404, 100, 204, 304, 500, 599, 7, 0]) if cfg.inst == "D" else rng.choice([200, 404, 599, 0, 7])
+    status = min(status, lim["status"])
+    reason = value(rng, 0, 12 if lim["reason"] > 20 else min(6, lim["reason"]))
+    reason = reason.replace(b"\t", b"x").lstrip(b" ")
+    body_kind = rng.choice(["cl", "cl", "chunked", "cl0"])
+    lead = rng.randint(0, min(1, lim["ws"]))
+    ws1 = rng.randint(1, min(2, lim["ws"]))
+    ws2 = 1 if not reason else rng.randint(1, min(2, lim["ws"]))
+    m.add(b" " * lead, "")
+    m.add(b"HTTP/%d.%d" % (ma, mi), "version")
+    m.add(b" " * ws1, "")
+    m.add(b"%d" % status, "status")
+    m.add(b" " * ws2, "")
+    m.add(reason, "reason")
+    m.add(eol(rng, cfg.strict), "status-line-eol")
+    hmap = {}
+    budget = {"len": lim["hlen"], "num": lim["hnum"]}
+    extra = []
+    body, chunks = b"", []
+    if body_kind in ("cl", "cl0"):
+        n = 0 if body_kind == "cl0" else (rng.choice([1, 2, 5, 17, 100, 1000]) if cfg.inst == "D" else rng.choice([1, 3, 9]))
+        body = bytes(rng.randrange(256) for _ in range(n))
+        extra.append((b"Content-Length", b"%d" % n))
+    else:
+        extra.append((b"Transfer-Encoding", rng.choice([b"chunked", b"Chunked"]) if lim["line"] > 30 else b"c"))
+        for _ in range(rng.randint(0, 3)):
+            n = rng.choice([1, 2, 5, 16, 17, 255]) if cfg.inst == "D" else rng.choice([1, 2, 7])
+            n = min(n, cfg.maxchunk)
+            chunks.append(bytes(rng.randrange(256) for _ in range(n)))
+    gen_header_lines(rng, m, cfg, lim, hmap, budget, extra)
+    for nm, v in extra:
+        if nm.lower() not in hmap:
+            return None
+    m.add(eol(rng, cfg.strict), "blank-line")
+    ver = "%d%d" % (ma, mi)
+    head = "V(%d,%s,%s,%s," % (status, hexs(reason), ver, fmt_headers(hmap))
+    if body_kind == "chunked":
+        m.events.append(head + "-)")
+        for c in chunks:
+            ext = b"" if rng.random() < 0.6 else token(rng, 1, 4)
+            hexs_ = (b"%x" if rng.random() < 0.7 else b"%X") % len(c)
+            line = hexs_ + ((b";" + ext) if ext else b"")
+            if len(line) + 2 > lim["line"]:
+                line = hexs_; ext = b""
+            m.add(line, "chunk-size-line")
+            m.add(eol(rng, cfg.strict), "chunk-line-eol")
+            m.add(c, "chunk-data")
+            m.add(eol(rng, cfg.strict), "chunk-data-eol")
+            m.events.append("C(%d,%s,%s,-,0)" % (len(c), hexs(ext), hexs(c)))
+        m.add(b"0", "last-chunk-line")
+        m.add(eol(rng, cfg.strict), "chunk-line-eol")
+        tmap = {}
+        if rng.random() < 0.4:
+            gen_header_lines(rng, m, cfg, lim, tmap, {"len": lim["hlen"], "num": lim["hnum"]})
+        m.add(eol(rng, cfg.strict), "trailer-blank-line")
+        m.events.append("C(0,-,-,%s,1)" % fmt_headers(tmap))
+    else:
+        m.add(body, "body")
+        m.events.append(head + hexs(body) + ")")
+    return m
